@@ -1,9 +1,9 @@
 package rules
 
 import (
-	"os"
 	"fmt"
 	"go/types"
+	"os"
 	"sort"
 	"strings"
 
@@ -33,7 +33,10 @@ func c11(c *Ctx) {
 				if f.Parent() != nil || len(f.Blocks) > 60 {
 					continue
 				}
-				hasLock := callsInBody(f, func(cc *ssa.CallCommon) bool { n := calleeName(cc); return strings.HasSuffix(n, "Mutex).Lock") || strings.HasSuffix(n, "Mutex).RLock") })
+				hasLock := callsInBody(f, func(cc *ssa.CallCommon) bool {
+					n := calleeName(cc)
+					return strings.HasSuffix(n, "Mutex).Lock") || strings.HasSuffix(n, "Mutex).RLock")
+				})
 				if !hasLock {
 					continue
 				}
